@@ -3,6 +3,8 @@ C28 — the key invariant is preserved by every action of the pool model.
 -/
 import TdModel.Lemmas.C28a
 
+set_option linter.unusedSimpArgs false
+
 namespace TdModel.C27
 
 theorem markDead_reqs (s : State) (d : Nat) : (markDead s d).reqs = s.reqs := by
@@ -32,12 +34,13 @@ theorem kinv_handOut_drop {cfg : Cfg} {t : State} (hI : KInv t) (i : Nat) (x : C
   · exact kinv_drop hI i x _ k hx hxk h1 h2
   · exact kinv_drop hI i x _ k hx hxk h1 h2
 
-theorem kinv_step (cfg : Cfg) {s s' : State} (a : Action) (hI : KInv s) (h : step cfg s a = some s') : KInv s' := by
+theorem kinv_step {cfg : Cfg} (hgood : Good cfg) {s s' : State} (a : Action) (hI : KInv s) (h : step cfg s a = some s') : KInv s' := by
+  obtain ⟨_, _, hgB, hgT, hgR⟩ := hgood
   have nokey : ∀ {x : Caller} {p : PC}, pcKey x.pc = none → ∀ k, pcKey x.pc = some k → pcKey p = some k := by
     intro x p hn k hk; rw [hn] at hk; cases hk
   cases a with
   | start i =>
-    simp only [step] at h
+    simp only [step, markDeadCfg_good hgR, hgB, hgT, if_true] at h
     split at h
     · rename_i x hx
       split at h
@@ -47,7 +50,7 @@ theorem kinv_step (cfg : Cfg) {s s' : State} (a : Action) (hI : KInv s) (h : ste
       · cases h
     · cases h
   | enter i =>
-    simp only [step] at h
+    simp only [step, markDeadCfg_good hgR, hgB, hgT, if_true] at h
     split at h
     · rename_i x hx
       split at h
@@ -100,7 +103,7 @@ theorem kinv_step (cfg : Cfg) {s s' : State} (a : Action) (hI : KInv s) (h : ste
       · cases h
     · cases h
   | mk i =>
-    simp only [step] at h
+    simp only [step, markDeadCfg_good hgR, hgB, hgT, if_true] at h
     split at h
     · rename_i x hx
       split at h
@@ -112,7 +115,7 @@ theorem kinv_step (cfg : Cfg) {s s' : State} (a : Action) (hI : KInv s) (h : ste
       · cases h
     · cases h
   | check i =>
-    simp only [step] at h
+    simp only [step, markDeadCfg_good hgR, hgB, hgT, if_true] at h
     split at h
     · rename_i x hx
       split at h
@@ -124,7 +127,7 @@ theorem kinv_step (cfg : Cfg) {s s' : State} (a : Action) (hI : KInv s) (h : ste
       · cases h
     · cases h
   | cwake i b =>
-    simp only [step] at h
+    simp only [step, markDeadCfg_good hgR, hgB, hgT, if_true] at h
     split at h
     · rename_i x hx
       split at h
@@ -154,7 +157,7 @@ theorem kinv_step (cfg : Cfg) {s s' : State} (a : Action) (hI : KInv s) (h : ste
       · cases h
     · cases h
   | wwake i b =>
-    simp only [step] at h
+    simp only [step, markDeadCfg_good hgR, hgB, hgT, if_true] at h
     split at h
     · rename_i x hx
       split at h
@@ -187,7 +190,7 @@ theorem kinv_step (cfg : Cfg) {s s' : State} (a : Action) (hI : KInv s) (h : ste
       · cases h
     · cases h
   | giveup i ko =>
-    simp only [step] at h
+    simp only [step, markDeadCfg_good hgR, hgB, hgT, if_true] at h
     split at h
     · rename_i x hx
       split at h
@@ -235,7 +238,7 @@ theorem kinv_step (cfg : Cfg) {s s' : State} (a : Action) (hI : KInv s) (h : ste
       · cases h
     · cases h
   | finish i r ko =>
-    simp only [step] at h
+    simp only [step, markDeadCfg_good hgR, hgB, hgT, if_true] at h
     split at h
     · rename_i x hx
       split at h
@@ -255,18 +258,18 @@ theorem kinv_step (cfg : Cfg) {s s' : State} (a : Action) (hI : KInv s) (h : ste
       · cases h
     · cases h
   | ready d =>
-    simp only [step] at h
+    simp only [step, markDeadCfg_good hgR, hgB, hgT, if_true] at h
     split at h
     · cases h
       exact ⟨hI.rd_reqs, hI.rd_inbox, hI.disj, hI.nd_reqs, hI.nd_inbox, hI.lt_reqs, hI.lt_inbox⟩
     · cases h
   | die d =>
-    simp only [step] at h
+    simp only [step, markDeadCfg_good hgR, hgB, hgT, if_true] at h
     split at h
     · cases h; exact kinv_markDead hI d
     · cases h
   | cancel i =>
-    simp only [step] at h
+    simp only [step, markDeadCfg_good hgR, hgB, hgT, if_true] at h
     split at h
     · rename_i x hx
       cases h
@@ -275,7 +278,7 @@ theorem kinv_step (cfg : Cfg) {s s' : State} (a : Action) (hI : KInv s) (h : ste
       · intro e he; exact reader_set (hI.rd_inbox e he) hx (fun h => h)
     · cases h
   | bg d rel ko =>
-    simp only [step] at h
+    simp only [step, markDeadCfg_good hgR, hgB, hgT, if_true] at h
     split at h
     · rename_i cn hcn
       split at h
@@ -295,14 +298,14 @@ theorem kinv_step (cfg : Cfg) {s s' : State} (a : Action) (hI : KInv s) (h : ste
       · cases h
     · cases h
 
-theorem kinv_run (cfg : Cfg) (as : List Action) {s s' : State} (hI : KInv s) (h : run cfg s as = some s') :
+theorem kinv_run {cfg : Cfg} (hgood : Good cfg) (as : List Action) {s s' : State} (hI : KInv s) (h : run cfg s as = some s') :
     KInv s' := by
   induction as generalizing s with
   | nil => simp [run] at h; subst h; exact hI
   | cons a as ih =>
     simp only [run] at h
     split at h
-    · rename_i s1 h1; exact ih (kinv_step cfg a hI h1) h
+    · rename_i s1 h1; exact ih (kinv_step hgood a hI h1) h
     · cases h
 
 end TdModel.C27
